@@ -334,44 +334,6 @@ def load_known():
         return json.load(f)['entries']
 
 
-def generic_shrink(prop, case, sig, budget_s=20.0, max_tries=400):
-    """Small deterministic ddmin over list fields and integer leaves of a case."""
-    t_end = time.time() + budget_s
-    tries = [0]
-
-    def still(c):
-        tries[0] += 1
-        if tries[0] > max_tries or time.time() > t_end:
-            return False
-        try:
-            return sig in replay_case(prop, c)
-        except BaseException:                           # noqa: BLE001
-            return False
-
-    cur = copy.deepcopy(case)
-    if not still(cur):
-        return case
-    improved = True
-    while improved and tries[0] < max_tries and time.time() < t_end:
-        improved = False
-        # shorten lists named steps/vals/ops
-        for key in ('steps', 'vals', 'ops', 'codes'):
-            lst = cur.get(key) if isinstance(cur, dict) else None
-            if isinstance(lst, list) and len(lst) > 1:
-                chunk = max(len(lst) // 2, 1)
-                while chunk >= 1:
-                    i = 0
-                    while i < len(lst):
-                        cand = copy.deepcopy(cur)
-                        cand[key] = lst[:i] + lst[i + chunk:]
-                        if cand[key] and still(cand):
-                            cur, lst, improved = cand, cand[key], True
-                        else:
-                            i += chunk
-                    chunk //= 2
-    return cur
-
-
 # ------------------------------------------------------------------ main
 def main(argv=None):
     ap = argparse.ArgumentParser(prog='check')
